@@ -524,12 +524,25 @@ def misread_of(bundles_obs):
     for i, den in zip(idx, dens):
         try:
             out[i] = c13sem.misread(den, bundles_obs[i][1]["normal"]["sem"])
-        except (KeyError, TypeError, ValueError) as e:
+        except (KeyError, TypeError, ValueError, IndexError) as e:
             raise leanio.MachineryError(f"c13sem.misread failed on {bundles_obs[i][0]['main']!r}: {e!r}")
     return out
 
 
-GLUED_NUMBERS = re.compile(r"(?<![^ \t=(])[+-]?\d*\.\d*\.[\d.]*(?![^ \t=)])")
+_NUM = r"[+-]?(\d+\.?\d*|\.\d+)([eE][+-]?\d+|[+-]\d+)?"
+
+
+def glued_word(w):
+    """a word (as MCNP splits the line: by blanks) that begins like a number but is not one number, shortcut, ZAID or
+    library identifier: `1.2.3`, `4.5.5`, `.80c`"""
+    w = w.lower()
+    if not re.match(r"[+-]?(\d|\.\d)", w):
+        return False
+    if re.fullmatch(_NUM, w) or re.fullmatch(_NUM + "m", w) or re.fullmatch(r"\d*(r|i|j|ilog|log)", w):
+        return False
+    if re.fullmatch(r"\d{4,6}\.\d{2,3}[a-z]{1,2}", w) or re.fullmatch(r"\d+[a-z]", w):  # a ZAID has at least 4 digits
+        return False
+    return True
 
 
 def misread_cause(fam, detail, text):
@@ -537,8 +550,12 @@ def misread_cause(fam, detail, text):
     a blank between them are read as two entries (MCNP separates entries by blanks)"""
     if fam == "mode-particles" and sorted("".join(detail[0])) == sorted("".join(detail[1])):
         return "particles-without-blank"
-    if GLUED_NUMBERS.search(text.split("\n", 1)[1] if "\n" in text else ""):
-        return "numbers-without-blank"
+    for line in text.split("\n")[1:]:
+        if L.is_comment_line(line):
+            continue
+        for w in re.split(r"[ \t=():#,]+", line.split("$")[0]):
+            if w and glued_word(w):
+                return "numbers-without-blank"
     return None
 
 
